@@ -295,6 +295,20 @@ def cvc5_check(solver):
         os.unlink(path)
 
 
+def static_obligations(E, con):
+    """obligations decided by the engine on the AST itself (MRO / attribute resolution, wiring of names)"""
+    out = []
+    if con.static is None:
+        return out
+    for lab, val in con.static(E).items():
+        ob = Obligation("%s/static[%s]" % (short(con.key), lab), [], z3.BoolVal(bool(val)), "ast", kind="static")
+        ob.status = "discharged" if val else "refuted"
+        ob.backend = "ast"
+        ob.detail = "decided on the AST (class/attribute resolution)"
+        out.append(ob)
+    return out
+
+
 def witness_cover(E, con):
     """vacuity guard for preconditions the solver cannot satisfy by itself (quantified representation invariants):
     the sidecar names real objects, built by the real constructors, and the precondition is evaluated on them"""
@@ -323,6 +337,9 @@ def verify_contract(E, con, thorough=False):
     if con.skip_body:
         res.notes.append("body not verified here (abstract/external contract)")
         return res, []
+    if con.key.startswith("static:"):
+        res.requires_sat = "sat"
+        return res, static_obligations(E, con)
     if not isinstance(fi, FunctionInfo):
         res.missing = True
         return res, []
@@ -348,6 +365,7 @@ def verify_contract(E, con, thorough=False):
         res.requires_sat = "error: %s" % ex
     for ob in obs:
         discharge(ob, thorough)
+    obs.extend(static_obligations(E, con))
     res.seconds = time.time() - t0
     res.inlined = sorted(E.inlined)
     return res, obs
@@ -389,7 +407,7 @@ def differential(E, con, fi, max_paths=64):
                     kind = "return"
                 except PyRaise as pr:
                     kind, value = "raise", pr.exc
-                if ctx.ghost.get("havocked"):
+                if ctx.ghost.get("havocked") or ctx.ghost.get("nondet"):
                     stats["skipped_havoc"] += 1
                     pending.extend(ctx.alternatives)
                     continue
